@@ -59,6 +59,11 @@ CHECKS["C17"] = {
          "with": ["verifdb", "state_export"],
          "gen_stubs": [{"pkgpath": "github.com/ProtonMail/gluon/connector", "iface": "Connector", "type": "verifConnBase"}],
          "params": {"quick": [{}], "thorough": [{}]}, "cover": ["connector-refused", "connector-accepted"]},
+        {"name": "wire", "pkg": "internal/session", "pkgname": "session", "entry": "VerifC17Wire", "files": ["zz_verif_c18.go", "zz_verif_c18b.go", "zz_verif_c01.go", "zz_verif_c01idle.go", "zz_verif_c01idle2.go", "zz_verif_c01wire.go", "zz_verif_c17wire.go"],
+         "with": ["state_export", "backend_export", "verifdb"], "goroutines": True, "concrete_time": True, "replay_timeout_s": 90,
+         "extra_overlay": {"internal/response/zz_verif_decode.go": "internal/response/zz_verif_decode.go"},
+         "params": {"quick": grid(k=[2, 3]), "thorough": grid(k=[4, 5])},
+         "cover": ["limit-accepted", "limit-refused"]},
     ],
     "stubs": [],
     "outside": ["concurrent sessions racing between check and insert (serialised by the database write lock)"],
@@ -516,3 +521,5 @@ CHECKS["C20"]["explanation"] += " VerifC20Wire: on the wire through the real ses
 CHECKS["C10"]["explanation"] += " VerifC10WireChunks: a fixed conversation (LOGIN with synchronising literals, SELECT, UID FETCH with a header-field list, STORE with a flag list, LOGOUT) delivered through the real net.Conn -> bufio -> input collector -> scanner -> parser -> session loop stack with one [two] cuts at arbitrary positions: the session writes exactly what it writes when all bytes arrive at once."
 
 CHECKS["C02"]["explanation"] += " VerifC02WireConnector: a client on the wire has INBOX selected while the connector delivers MessagesCreated / MessageFlagsUpdated / MessagesDeleted through the real backend appliers and the real update queue; mirror, wire probe and fresh-session comparison as in the two-client harness."
+
+CHECKS["C17"]["explanation"] += " VerifC17Wire: on the wire through the real session loop with at most 4 mailboxes and 3 messages per mailbox: histories of CREATE (also with a missing superior) / APPEND / COPY: after OK every listed mailbox holds at most 3 messages (STATUS) and at most 3 mailboxes are listed; a command answered NO changed neither the list nor any count."
